@@ -6,6 +6,7 @@ package c10
 import (
 	"fmt"
 	"math"
+	"reflect"
 	"runtime"
 
 	"pgregory.net/rapid"
@@ -47,7 +48,7 @@ type Case struct {
 	MaxOut int `json:"maxOut,omitempty"`
 }
 
-var Types = []string{"int8", "uint8", "int16", "uint16", "int32", "uint32", "int64", "uint64", "int", "uint", "uintptr", "float32", "float64"}
+var Types = []string{"int8", "uint8", "int16", "uint16", "int32", "uint32", "int64", "uint64", "int", "uint", "uintptr", "float32", "float64", "NInt16", "NFloat32"}
 
 type held struct {
 	buf  kit.AnyBuf   // header the current operation goes through
@@ -67,7 +68,7 @@ func Check(c *Case) (res kit.Result) {
 	for _, t := range Types {
 		okT = okT || t == c.T
 	}
-	if !okT || c.C < 1 || c.C > 8 || c.K < 0 || c.K > 64 || c.L < 0 || c.L > c.K || len(c.Ops) > 400 || c.MaxOut < 0 || c.MaxOut > 64 {
+	if !okT || c.C < 1 || c.C > 8 || c.K < 0 || (c.K > 64 && (len(c.Ops) > 12 || c.C*c.K > 1<<18)) || c.L < 0 || c.L > c.K || len(c.Ops) > 400 || c.MaxOut < 0 || c.MaxOut > 64 {
 		return
 	}
 	maxOut := c.MaxOut
@@ -80,9 +81,13 @@ func Check(c *Case) (res kit.Result) {
 	want := kit.Hdr{Len: C * L, Cap: C * K, Length: L, Capacity: K, Channels: C, BitDepth: kit.Info(c.T).Bits}
 	isFloat := kit.Info(c.T).Kind == kit.Float
 	var out []*held
-	wasPut := map[any]bool{}   // buffer objects handed to Put
-	putDirty := map[any]bool{} // ... that had been written to
-	putShort := map[any]bool{} // ... that were resliced shorter
+	// keyed by address only: the bookkeeping must not keep put-back buffers reachable (the
+	// library may attach behaviour to their collection); an address reused after a collection
+	// only blurs the statistics below
+	addr := func(b kit.AnyBuf) uintptr { return reflect.ValueOf(b.Raw()).Pointer() }
+	wasPut := map[uintptr]bool{}   // buffer objects handed to Put
+	putDirty := map[uintptr]bool{} // ... that had been written to
+	putShort := map[uintptr]bool{} // ... that were resliced shorter
 	checkouts := 0
 	zero := kit.AllocAny(c.T, signal.Allocator{Channels: 1, Length: 1, Capacity: 1}).Get(0)
 
@@ -126,7 +131,7 @@ func Check(c *Case) (res kit.Result) {
 				return
 			}
 			checkouts++
-			recycled := wasPut[b.Raw()]
+			recycled := wasPut[addr(b)]
 			if C*K > 0 {
 				for _, o := range out {
 					if o.hdrs[0].Raw() == b.Raw() {
@@ -137,6 +142,10 @@ func Check(c *Case) (res kit.Result) {
 			}
 			if hd := b.Hdr(); hd != want {
 				res.Failf("%s: Get returned %+v, a fresh Alloc(%+v) reports %+v (recycled buffer: %v)", what, hd, al, want, recycled)
+				return
+			}
+			if m := kit.RawMismatch(b.Raw(), want); m != "" {
+				res.Failf("%s: Get returned a buffer whose %s (recycled buffer: %v)", what, m, recycled)
 				return
 			}
 			var alias kit.AnyBuf
@@ -152,10 +161,10 @@ func Check(c *Case) (res kit.Result) {
 			}
 			if recycled {
 				res.Class("recycled")
-				if putDirty[b.Raw()] {
+				if putDirty[addr(b)] {
 					res.Class("recycledAfterDirtyUse")
 				}
-				if putShort[b.Raw()] {
+				if putShort[addr(b)] {
 					res.Class("recycledAfterResliceShorter")
 				}
 				if L > 0 {
@@ -175,7 +184,7 @@ func Check(c *Case) (res kit.Result) {
 			if op.N%2 == 1 {
 				res.Class("quietCheckout")
 			}
-			delete(wasPut, b.Raw())
+			delete(wasPut, addr(b))
 			out = append(out, nh)
 			if len(out) >= 2 {
 				res.Class("severalOutstanding")
@@ -184,9 +193,9 @@ func Check(c *Case) (res kit.Result) {
 				res.Class("nineOrMoreOutstanding")
 			}
 		case "put":
-			wasPut[h.buf.Raw()] = true
-			putDirty[h.buf.Raw()] = true // stamped on checkout at least
-			putShort[h.buf.Raw()] = h.short
+			wasPut[addr(h.buf)] = true
+			putDirty[addr(h.buf)] = true // stamped on checkout at least
+			putShort[addr(h.buf)] = h.short
 			if p, v := kit.Try(func() { pool.Put(h.buf) }); p {
 				res.Failf("%s: Put of a buffer from this pool (Len %d, Cap %d) panicked: %v", what, h.buf.Hdr().Len, h.buf.Hdr().Cap, v)
 				return
@@ -328,6 +337,17 @@ func Gen(t *rapid.T) *Case {
 		c.L = c.K
 	default:
 		c.L = rapid.IntRange(0, c.K).Draw(t, "l")
+	}
+	if kit.Chance(t, "huge", 1, 150) {
+		// pooled buffers of more than 2^16 samples (sizes that are not multiples of 4 or 8), short histories
+		c.K = rapid.SampledFrom([]int{65537, 65541, 70001, 66666}).Draw(t, "hugeSamples")/c.C + 1
+		c.L = rapid.SampledFrom([]int{0, c.K, 3}).Draw(t, "hugeL")
+		for _, k := range rapid.SliceOfN(rapid.SampledFrom([]string{"get", "put", "put", "write", "appendSamples", "set", "reslice", "get"}), 2, 9).Draw(t, "hugeOps") {
+			c.Ops = append(c.Ops, Op{Kind: k, I: rapid.IntRange(0, 3).Draw(t, "hi"), N: rapid.IntRange(0, 40).Draw(t, "hn")})
+		}
+		c.Ops = append([]Op{{Kind: "get"}}, c.Ops...)
+		c.Ops = append(c.Ops, Op{Kind: "put"}, Op{Kind: "get"})
+		return c
 	}
 	if rapid.IntRange(0, 4).Draw(t, "burstSel") == 0 {
 		// many buffers outstanding at once: g gets, the same number of puts in a drawn order,
